@@ -11,6 +11,7 @@ from symtorch.scalar import PathAbort, _bool, _int, _real, is_sym, s_and, s_eq, 
 
 from . import core
 from . import envs as EV
+from . import envs_mdcpdp as _MD  # noqa: F401  (registers MDCPDP)
 from . import envs_sel as _SEL  # noqa: F401  (registers the selection environments)
 from .oracle import all_, any_
 
